@@ -131,6 +131,16 @@ class Driver:
         raise ValueError(op)
 
     def replay(self, h: dict, execute: bool = True) -> dict:
+        """replay_once, repeated once if it raised (a loaded machine can make a selene start fail)."""
+        obs = self.replay_once(h, execute)
+        if obs["error"]:
+            first = obs["error"]
+            obs = self.replay_once(h, execute)
+            if obs["error"]:
+                obs["error_first_attempt"] = first
+        return obs
+
+    def replay_once(self, h: dict, execute: bool = True) -> dict:
         """Drive one history; returns observations only (the comparison is done by the caller
         against the TLC-printed expectation, see compare()).  With execute=False the derivations are
         performed and projected but selene is not started (run steps have no effect on configs)."""
@@ -156,6 +166,7 @@ class Driver:
             import traceback
 
             obs["error"] = f"{type(e).__name__}: {e}\n{traceback.format_exc()[-1200:]}"
+            obs["error_env"] = isinstance(e, (OSError, MemoryError, TimeoutError))
         return obs
 
 
